@@ -18,6 +18,25 @@ mod more;
 #[path = "c17_unproved.rs"]
 mod unproved;
 
+/// where the last panic happened (recorded by the hook installed in `install_hook`)
+pub static LAST_PANIC: std::sync::Mutex<String> = std::sync::Mutex::new(String::new());
+
+pub fn install_hook() {
+    std::panic::set_hook(Box::new(|info| {
+        let loc = info.location().map(|l| format!("{}:{}", l.file(), l.line())).unwrap_or_default();
+        let msg = if let Some(s) = info.payload().downcast_ref::<&str>() {
+            s.to_string()
+        } else if let Some(s) = info.payload().downcast_ref::<String>() {
+            s.clone()
+        } else {
+            String::new()
+        };
+        if let Ok(mut g) = LAST_PANIC.lock() {
+            *g = format!("{} {}", loc, msg.replace('\n', " "));
+        }
+    }));
+}
+
 pub fn guard<F: FnOnce() -> String>(f: F) -> String {
     match catch_unwind(AssertUnwindSafe(f)) {
         Ok(s) => s,
@@ -533,10 +552,13 @@ fn run_case(out: &mut Out, case: &Case) {
         k => {
             for op in &case.ops {
                 let r = run_op(k, op);
-                if r == "panic" {
-                    out.stat(&format!("panic_{}", k), 1);
-                }
                 out.op(op, &r);
+                if r == "panic" || r.ends_with(" panic") {
+                    out.stat(&format!("panic_{}", k), 1);
+                    if let Ok(g) = LAST_PANIC.lock() {
+                        out.buf.push_str(&format!("# panic at {}\n", g));
+                    }
+                }
             }
         }
     }
@@ -923,6 +945,7 @@ fn gen_wbuf(r: &mut Rng, _out: &mut Out) -> Vec<String> {
 }
 
 pub fn gen(a: &Args) -> String {
+    install_hook();
     let mut r = Rng::new(a.seed);
     let mut out = Out::default();
     out.buf.push_str("#rule one case = one generated structure of one codec: `rt` = structure -> real encoder -> real decoder (bytes and decoded fields printed), followed by `dec` ops on the same bytes, on single-bit/byte mutations, truncations, extensions and on arbitrary strings; boundary field values (0,1,max,2^k) and every flag subset are enumerated by the generator; non-trivial = the ops of the case produced at least two different answers (e.g. an accepted and a refused decode); distinct = by operation list\n");
@@ -964,6 +987,7 @@ pub fn emit_case(out: &mut Out, id: u64, kind: &str, ops: Vec<String>) {
 }
 
 pub fn replay(a: &Args) -> String {
+    install_hook();
     let text = std::fs::read_to_string(a.input.as_ref().expect("--in")).expect("read input");
     let mut out = Out::default();
     for c in parse_cases(&text) {
